@@ -139,6 +139,17 @@ class Normalizer:
                     return r.scale(l.const)
                 if r.is_const():
                     return l.scale(r.const)
+        if isinstance(e, ast.IfExp) and isinstance(e.test, ast.Compare) and len(e.test.ops) == 1:
+            # `a if a > b else b`  is max(a, b);  `a if a < b else b`  is min(a, b)  (and the mirrored spellings)
+            l, r, op = e.test.left, e.test.comparators[0], e.test.ops[0]
+            kl, kr, kb, ko = n(l).key(), n(r).key(), n(e.body).key(), n(e.orelse).key()
+            kind = None
+            if {kb, ko} == {kl, kr} and kl != kr:
+                greater_wins = (isinstance(op, (ast.Gt, ast.GtE)) and kb == kl) or (isinstance(op, (ast.Lt, ast.LtE)) and kb == kr)
+                smaller_wins = (isinstance(op, (ast.Lt, ast.LtE)) and kb == kl) or (isinstance(op, (ast.Gt, ast.GtE)) and kb == kr)
+                kind = 'max' if greater_wins else 'min' if smaller_wins else None
+            if kind:
+                return Lin({f'{kind}({", ".join(sorted([kl, kr]))})': 1})
         if isinstance(e, ast.Attribute):
             e = self._rebase(e, env)
             s = ast.unparse(e)
@@ -235,6 +246,9 @@ def simple_return(fn):
     defs = {}
     params = {a.arg for a in fn.args.args}
     for st in body[:-1]:
+        if isinstance(st, ast.Assign) and len(st.targets) == 1 and isinstance(st.targets[0], ast.Attribute) \
+                and not any(isinstance(x, ast.Call) for x in ast.walk(st.value)):
+            continue        # a field store next to the computation (`self._offset = 0`): the returned formula is unaffected
         if not (isinstance(st, ast.Assign) and len(st.targets) == 1 and isinstance(st.targets[0], ast.Name)):
             return None
         nm = st.targets[0].id
